@@ -87,10 +87,18 @@ def t_slices(rng, L, h):
     # the reader-built slice owns everything it references
     L += ["tscol %d %d 0" % (h + 3, h + 1), "csvals %d %d" % (h + 3, h + 3), "vaget %d %d" % (h + 3, h + 3), "scribble %d" % (h + 3), "tsdump %d" % (h + 1),
           "csget %d %d %s" % (h + 4, h + 3, name_hex(b"IsInvalid"))]
-    if rng.random() < 0.7: L += ["tsdel %d" % (h + 1)]
+    if rng.random() < 0.5:
+        # a caller-built column slice appended to the reader-built (owning) table slice: the slice takes the column-slice
+        # struct with it, the caller's value arrays stay the caller's
+        L += [obj_line(h + 5, ty, rand_array(rng, ty, rows)), "va %d %d %d" % (h + 5, rng.choice([-1, -2, -3]), h + 5),
+              obj_line(h + 6, BOOL, rand_array(rng, BOOL, rows)), "va %d -1 %d" % (h + 6, h + 6),
+              "csnew %d %d" % (h + 5, h + 5), "csadd %d %s %d" % (h + 5, name_hex(b"IsInvalid"), h + 6),
+              "tsadd %d %d" % (h + 1, h + 5), "tsdump %d" % (h + 1), "tsdel %d" % (h + 1), "csforget %d" % (h + 5),
+              "vadump %d" % (h + 5), "vadump %d" % (h + 6), "vadel %d" % (h + 5), "vadel %d" % (h + 6)]
+    elif rng.random() < 0.7: L += ["tsdel %d" % (h + 1)]
     # a failed read leaves nothing behind
     L += ["intrunc %d %d %d" % (h + 1, h, rng.randint(20, 60)), "session %d *" % (h + 1)]
-    return h + 6
+    return h + 8
 
 
 def t_failed_read(rng, L, h):
@@ -145,7 +153,22 @@ def ledger_case(cid, rng, with_failures):
     return Case(cid, L, oracle=oracle, meta={"dist": {"kind": "ledger", "failures": with_failures}})
 
 
+def failed_constructor_cases(rng, tier):
+    """a value-array constructor that fails at its k-th allocation frees nothing twice and keeps nothing: every k, every
+    encoding, string / binary / fixed-size elements (the sanitizer and the allocator ledger are the oracle)"""
+    reps = {"quick": 1, "thorough": 6, "search": 1}[tier]
+    for rep in range(reps):
+        for ty in (STRING, BINARY, 2, BOOL):
+            n = rng.choice([1, 2, 4, 7])
+            elems = rand_array(rng, ty, n, "runs" if rep % 2 else "random")
+            for enc in (-2, -3, -4):
+                for k in range(1, 26 if ty in (STRING, BINARY) else 9):
+                    L = [obj_line(1, ty, elems), "allocfail %d" % k, "va 2 %d 1" % enc, "odump 1", "vadump 2", "vaget 3 2", "odump 3"]
+                    yield Case("fc-%d-%d-%d-%d" % (rep, ty, enc, k), L, compare=False, meta={"dist": {"kind": "failed-constructor", "enc": enc}})
+
+
 def cases(rng, tier):
+    yield from failed_constructor_cases(rng, tier)
     n = {"quick": 300, "thorough": 6000, "search": 200}[tier]
     for i in range(n // 3):
         yield ledger_case("l%d" % i, rng, False)
